@@ -106,6 +106,15 @@ func (w *vfsWorld) put(l, data string) error {
 	if data != "" {
 		data = vfPad(data)
 	}
+	if _, err := os.Stat(p); err != nil && data != "" {
+		// new file: complete content first, then moved into the watched directory (one Create event, never
+		// observable half-written or still empty)
+		tmp := filepath.Join(filepath.Dir(w.dir), "tmp-"+filepath.Base(w.dir)+"-"+l)
+		if err := os.WriteFile(tmp, []byte(data), 0o600); err != nil {
+			return err
+		}
+		return os.Rename(tmp, p)
+	}
 	f, err := os.OpenFile(p, os.O_WRONLY|os.O_CREATE, 0o600)
 	if err != nil {
 		return err
@@ -248,7 +257,7 @@ func TestC18(t *testing.T) {
 		"Provider.ruleSetsChanged; plus seeded sequences against the real fsnotify loop (Start, sentinel file for quiescence). Oracle: vfDecide per processed event on the " +
 		"actual file state at processing time, and active rule sets = latest valid content of existing files at the end. Non-trivial: >=2 successful processor calls.")
 	r.Assume("direct mode synthesises the fsnotify events inotify reports for each mutation (Create/Write/Chmod/Remove/Rename+Create); the watch mode uses the real ones",
-		"watch mode writes files in place with one write(2) of constant size so that no intermediate (truncated) content is observable",
+		"watch mode writes existing files in place with one write(2) of constant size and moves new files into the directory complete, so that no intermediate (empty/truncated) content is observable",
 		"a Remove/Rename event that is processed after the file was re-created may unload or not (not asserted); the following Create event is asserted")
 
 	if !vfsCalibrate(r) {
@@ -288,6 +297,7 @@ func TestC18(t *testing.T) {
 	vfsWatch(r)
 	r.Set("fs_watch_wall_s", time.Since(t0).Seconds())
 
+	r.Set("exhaustive_subspace", "all sequences of length <= fs_max_sequence_length over fs_alphabet x delivery schedules (direct mode); watch mode is a seeded sample")
 	r.Require("fs_direct_sequences", r.Counter("fs_direct_sequences"), 10000)
 	r.Require("fs_calls_created", r.Counter("calls_C"), 1000)
 	r.Require("fs_calls_updated", r.Counter("calls_U"), 1000)
